@@ -19,6 +19,7 @@ import ScpiVerif.Drv.Match
 import ScpiVerif.Drv.ParseRun
 import ScpiVerif.Drv.ErrStr
 import ScpiVerif.Drv.Expr
+import ScpiVerif.Drv.BufFmt
 open ScpiVerif.Drv
 
 def dispatch (cfg : String) (inp : List String) (obs : List String) : Option Verdict :=
@@ -34,6 +35,7 @@ def dispatch (cfg : String) (inp : List String) (obs : List String) : Option Ver
   | some "P9" => runParse cfg inp obs
   | some "E" => runErrStr cfg inp obs
   | some "X" => runExpr inp obs
+  | some "F" => runBufFmt cfg inp obs
   | _ => none
 
 structure Stats where
